@@ -72,6 +72,53 @@ def extra_catalog():
         out["FlatPack.Toy"] = lambda: E.FlatPack(generator=FPToy())
     except Exception:  # noqa: BLE001
         pass
+    # "same configuration" includes sharing constructor arguments: build the generator object (or the numpy
+    # database handed to it) ONCE and give it to every instance; a generator that mutates its arguments or caches
+    # per-call results then makes fresh instances disagree
+    def shared(name, env_cls, make_gen):
+        try:
+            gen = make_gen()
+        except Exception:  # noqa: BLE001
+            return
+        out[name] = lambda: env_cls(generator=gen)
+
+    try:
+        import os
+
+        import jumanji
+        from jumanji.environments.logic.sudoku import data as sudoku_data
+        from jumanji.environments.logic.sudoku.generator import DatabaseGenerator
+
+        path = os.path.join(os.path.dirname(jumanji.__file__), "environments", "logic", "sudoku", "data",
+                            sudoku_data.DATABASES["very-easy"])
+        db = np.load(path)          # one numpy array shared by all instances, as jumanji/__init__.py does
+        out["Sudoku.SharedDatabase"] = lambda: E.Sudoku(generator=DatabaseGenerator(database=db))
+    except Exception:  # noqa: BLE001
+        pass
+    try:
+        from jumanji.environments.routing.maze.generator import RandomGenerator as MazeGen
+
+        shared("Maze.SharedGenerator", E.Maze, lambda: MazeGen(num_rows=5, num_cols=7))
+        from jumanji.environments.routing.connector.generator import RandomWalkGenerator as CG
+
+        shared("Connector.SharedGenerator", E.Connector, lambda: CG(grid_size=6, num_agents=3))
+        from jumanji.environments.packing.knapsack.generator import RandomGenerator as KG
+
+        shared("Knapsack.SharedGenerator", E.Knapsack, lambda: KG(num_items=8, total_budget=2.0))
+        from jumanji.environments.routing.tsp.generator import UniformGenerator as TG
+
+        shared("TSP.SharedGenerator", E.TSP, lambda: TG(num_cities=6))
+        from jumanji.environments.routing.sokoban.generator import ToyGenerator as SG
+
+        shared("Sokoban.SharedGenerator", E.Sokoban, lambda: SG())
+        from jumanji.environments.logic.rubiks_cube.generator import ScramblingGenerator as RG
+
+        shared("RubiksCube.SharedGenerator", E.RubiksCube, lambda: RG(cube_size=3, num_scrambles_on_reset=5))
+        from jumanji.environments.packing.bin_pack.generator import RandomGenerator as BG
+
+        shared("BinPack.SharedGenerator", E.BinPack, lambda: BG(max_num_items=6, max_num_ems=15, split_num_same_items=1))
+    except Exception:  # noqa: BLE001
+        pass
     return out
 
 
@@ -134,7 +181,9 @@ def drive_env(name, tier, seed):
 
     jreset, jstep = jax.jit(env.reset), jax.jit(env.step)
     K1, K2 = jax.random.PRNGKey(seed * 3 + 1), jax.random.PRNGKey(seed * 3 + 2)
-    eager_ok = tier == "thorough" or name.split(".")[0] in CHEAP_EAGER or "." in name
+    eager_ok = True      # every environment gets at least one plain-Python reset and step (argument mutation, leaked
+    #                       tracers and Python-level hidden state are invisible under jit); more of them when cheap
+    eager_many = tier == "thorough" or name.split(".")[0] in CHEAP_EAGER
 
     # static: no side effects in the traced programs
     try:
@@ -176,10 +225,11 @@ def drive_env(name, tier, seed):
     if eager_ok:
         call("reset", "eager", env.reset, (K1,), note="eager after jit")
         call("reset", "jit", jreset, (K1,), note="jit after eager")
-        env_c = mk()
-        call("reset", "fresh_instance_eager", env_c.reset, (K1,))
-        call("reset", "fresh_instance_eager", env_c.reset, (K2,))
-        call("reset", "fresh_instance_jit_after_eager", jax.jit(env_c.reset), (K1,))
+        if eager_many:
+            env_c = mk()
+            call("reset", "fresh_instance_eager", env_c.reset, (K1,))
+            call("reset", "fresh_instance_eager", env_c.reset, (K2,))
+            call("reset", "fresh_instance_jit_after_eager", jax.jit(env_c.reset), (K1,))
     for B in ((3,) if tier == "quick" else (1, 3, 8)):
         keys = jnp.stack([K1, K2, K1][:B] + [K2] * max(0, B - 3))
         seq[0] += 1
@@ -209,8 +259,9 @@ def drive_env(name, tier, seed):
     for (s, a) in pairs[:4]:
         call("step", "fresh_instance_jit", jstep_b, (s, a))
     if eager_ok:
-        for (s, a) in pairs[:2]:
+        for (s, a) in pairs[:(2 if eager_many else 1)]:
             call("step", "eager", env.step, (s, a))
+            call("step", "jit", jstep, (s, a), note="jit after eager on the same argument objects")
     # vmap over the visited pairs
     if pairs:
         B = min(len(pairs), 4 if tier == "quick" else 8)
